@@ -389,3 +389,24 @@ def cmp_facts(F, P, f, bb):
                 op = t[1] if holds else NEG[t[1]]
                 out.append((op, t[2], t[3], i))
     return out
+
+
+def message_send_sites(F, P, fns, variant):
+    """call sites (in the given bodies) that hand a `ClientMessage::<variant>` to the transport sink, directly or through a local
+    accessor.  Returns [(g, bb, t, agg_term)] where agg_term is the (possibly inlined: 'bound') aggregate that built the message."""
+    out = []
+    for g in fns:
+        for bb, t in g.calls():
+            direct = callee_is(t, 'Sink::start_send') and 'Fuse<' in (t.get('self_ty') or '')
+            c = F.callee_fn(t)
+            via = c is not None and any(callee_is(t2, 'Sink::start_send') and 'Fuse<' in (t2.get('self_ty') or '') for _, t2 in c.calls())
+            if not (direct or via):
+                continue
+            for a in t['args'][1:]:
+                for r, p in P.root(P.operand(g, a, at=bb)):
+                    ru = P.unbound(r)
+                    if ru[0] == 'agg' and not norm_path(p):
+                        rv = P._agg_rv(ru)
+                        if path_matches(rv['adt'], 'ClientMessage') and rv['variant'] == variant:
+                            out.append((g, bb, t, r))
+    return out
